@@ -647,3 +647,58 @@ def replay_atom_identity(viol):
         cases.append(("atom_codes('%s', Cs), atom_codes(A, Cs), ( A == '%s' -> show(same) ; show(different) )" % (a, a),
                       "same"))
     return run_cases("show(X) :- write(X), nl.\n", cases, {"model": viol}, "C21", "atom_identity", batch=True)
+
+
+# ---------------------------------------------------------------- C30 (copy_term under exhaustion)
+EXH_PROGRAM = """
+:- use_module(library(lists)).
+mk(0, []) :- !.
+mk(N, [f(N,_)|T]) :- N1 is N-1, mk(N1, T).
+chk([], 0) :- !.
+chk([f(N,V)|T], N) :- var(V), N1 is N-1, chk(T, N1).
+cp(T, Acc, K) :- copy_term(T, C), K1 is K+1, cp(T, [C|Acc], K1).
+main :- mk(300000, T), chk(T, 300000),
+        catch(cp(T, [], 0), error(resource_error(memory), _), true),
+        ( chk(T, 300000) -> write(source_intact) ; write(source_corrupted) ), nl.
+"""
+
+
+def replay_copy_term_exhaustion(viol):
+    """copy a large term repeatedly under an address-space limit until the heap cannot grow, catch
+    the resource error, and inspect the source term (needs ~1 minute)"""
+    import resource
+    os.makedirs(os.path.join(REPLAY_DIR, "C30"), exist_ok=True)
+    path = os.path.join(REPLAY_DIR, "C30", "copy_term_exhaustion.json")
+    rec = {"engine": "prolog-exhaustion", "property": "C30", "program": EXH_PROGRAM, "model": viol,
+           "path": path, "reproduced": False, "limit_kb": 400000}
+    exe = build_binary()
+    if not exe:
+        rec["why"] = "building scryer-prolog from the working tree failed"
+    else:
+        os.makedirs(os.path.join(BIN_DIR, "tmp"), exist_ok=True)
+        pl = os.path.join(BIN_DIR, "tmp", "exh_%d.pl" % os.getpid())
+        with open(pl, "w") as f:
+            f.write(EXH_PROGRAM)
+
+        def lim():
+            resource.setrlimit(resource.RLIMIT_AS, (rec["limit_kb"] * 1024, rec["limit_kb"] * 1024))
+        env = dict(os.environ)
+        env["MALLOC_ARENA_MAX"] = "1"
+        try:
+            p = subprocess.run([exe, "-f", "--no-add-history", pl, "-g", "main, halt"], capture_output=True,
+                               text=True, timeout=900, stdin=subprocess.DEVNULL, preexec_fn=lim, env=env)
+            out = p.stdout.strip().split("\n")[-1] if p.stdout.strip() else ""
+            rec["output"], rec["returncode"], rec["stderr_tail"] = out, p.returncode, p.stderr[-300:]
+            rec["reproduced"] = out != "source_intact"
+            if not rec["reproduced"]:
+                rec["why"] = "source term intact after the caught resource error"
+        except subprocess.TimeoutExpired:
+            rec["why"] = "timeout"
+        finally:
+            try:
+                os.unlink(pl)
+            except OSError:
+                pass
+    with open(path, "w") as f:
+        json.dump(rec, f, indent=1)
+    return rec
